@@ -161,7 +161,11 @@ def run_case(case, rec):
                         if sp in m.lex:
                             m.remove(sp)
                             removed_something = True
-                # ---- quiescent point
+                # ---- quiescent point (sometimes skipped: then nothing at all is asked of the library between two
+                # operations, as in a script that only adds and removes)
+                if step + 1 < case['len'] and r.random() < 0.3:
+                    rec.event('step.unobserved')
+                    continue
                 real = sorted(lx.specifier() for lx in wn.lexicons())
                 if real != sorted(m.lex):
                     rec.violation('installed-set', f'after {ops[-1]}: installed {real}, model {sorted(m.lex)} (history {ops})')
